@@ -415,6 +415,7 @@ VERIFY_SITES = [  # (lean name, class, method)
     ("recsSigBlockV2", "SignatureBlockV2", "verify"),
     ("recsSrkRecord", "SRKRecordBase", "_verify"),
     ("recsBlob", "AhabBlob", "verify"),
+    ("recsCertificate", "AhabCertificate", "verify"),
     ("recsImage", "AHABImage", "verify"),
 ]
 
@@ -452,7 +453,8 @@ def gen_AhabConsts():
             size = struct.calcsize(fmt)
         except struct.error:
             size = 0
-        pargs = src.pack_args(cname) if cname in src.classes else []
+        pargs = (src.pack_args(cname, ("export", "_export", "get_signature_data") if cname == "AhabCertificate" else ("export", "_export"))
+                 if cname in src.classes else [])
         meta["layouts"][cname] = {"fmt": fmt, "size": size, "pack_args": pargs, "lean": pfx + "Layout"}
         o.append(f"def {pfx}Layout : Layout := ⟨{lstr(fmt)}, {lnats(ints)}, [" + ", ".join(f"({i}, {w})" for i, w in strs)
                  + f"], {size}, [" + ", ".join(lstr(a) for a in pargs) + "]⟩")
@@ -484,6 +486,10 @@ def gen_AhabConsts():
         ("srkDataTag", src.const("SRKData", "TAG")), ("srkDataVersion", src.const("SRKData", "VERSION")),
         ("srkTableV2Version", src.const("SRKTableV2", "VERSION")),
         ("srkRecordV2ParamsLen", src.const("SRKRecordV2", "CRYPTO_PARAMS_LEN")),
+        ("certPermBitSize", src.const("AhabCertificate", "PERM_BIT_SIZE")),
+        ("certFuseVersionBitSize", src.const("AhabCertificate", "FUSE_VERSION_BIT_SIZE")),
+        ("certPermissionDataSize", src.const("AhabCertificate", "PERMISSION_DATA_SIZE")),
+        ("certUuidSize", src.const("AhabCertificate", "UUID_SIZE")),
     ]
     for key in ("FLAGS_SRK_SET_OFFSET", "FLAGS_SRK_SET_SIZE", "FLAGS_USED_SRK_ID_OFFSET", "FLAGS_USED_SRK_ID_SIZE",
                 "FLAGS_SRK_REVOKE_MASK_OFFSET", "FLAGS_SRK_REVOKE_MASK_SIZE", "FLAGS_GDET_ENABLE_OFFSET", "FLAGS_GDET_ENABLE_SIZE"):
